@@ -163,7 +163,8 @@ def catalogue(tier, rng):
     return out
 
 
-SIMPLE = ["rst", "fin", "partial_rst", "badlen_close", "neg_len", "nonascii_name", "write_side", "dead_logger", "huge_len", "big_type"]
+SIMPLE = ["rst", "fin", "partial_rst", "badlen_close", "neg_len", "nonascii_name", "write_side", "dead_logger", "huge_len", "big_type",
+          "slow_sub", "dead_suball"]
 
 
 def simple_fault(kind):
@@ -188,6 +189,12 @@ def simple_fault(kind):
         return "logger", [], "rst", True
     if kind == "big_type":
         return "connected", [(fr(2 ** 31 - 2, b""), 1)], None, False
+    if kind == "slow_sub":
+        # a subscriber that has fallen behind: alive, silent, and not in the round's writability snapshot
+        return "subscribed", [], None, True
+    if kind == "dead_suball":
+        # a subscriber of everything (failure notices included) whose reset the manager finds on the write side
+        return "suball", [], "rst", True
     raise ValueError(kind)
 
 
@@ -212,7 +219,8 @@ def gen_cases(tier, seed):
     pairs = [(a, b) for a in SIMPLE for b in SIMPLE]
     rng.shuffle(pairs)
     if tier == "quick":
-        pairs = pairs[:30]
+        must = [("slow_sub", x) for x in ("dead_suball", "fin", "rst", "write_side", "dead_logger")] + [("dead_suball", "slow_sub"), ("fin", "slow_sub")]
+        pairs = pairs[:30] + [p for p in must if p not in pairs[:30]]
     for a, b in pairs:
         nready = 1 + sum(0 if simple_fault(x)[3] else 1 for x in (a, b))
         for p in range(math.factorial(nready)):
@@ -338,6 +346,7 @@ def run_case(case, tier):
         else:
             labels = ["BP"]
             leave = []
+            slow = [L for L, kind in (("O1", case["a"]), ("O2", case["b"])) if kind == "slow_sub"]
             for L, kind, mid in (("O1", case["a"], 30), ("O2", case["b"], 31)):
                 stg, raws, close, excl = simple_fault(kind)
                 steps += stage_steps(L, stg, mid)
@@ -350,7 +359,7 @@ def run_case(case, tier):
             steps += leave
             steps.append(["pub", "BP", T, 0, 0, 8] if case["trigger"] == "pub" else ["sub", "BP", 555])
             perms = list(itertools.permutations(labels))
-            steps.append(["round", {"only": labels, "order": list(perms[case["perm"] % len(perms)]), "adv": 0.001}])
+            steps.append(["round", {"only": labels, "order": list(perms[case["perm"] % len(perms)]), "adv": 0.001, "nw": slow}])
             steps.append(["drain", {"adv": 0.001}])
         steps += TIMERS + PROBE + TIMERS
         # offenders' routing state is unknown to the model: everything about them is don't-care
